@@ -34,7 +34,7 @@ fn target_schema(kind: &str) -> Value {
 }
 
 pub fn gen_c14_case(g: &mut G) -> Value {
-    let kind = *g.pick(&["struct", "enum", "newtype", "struct-nullable", "string-nullable"]);
+    let kind = *g.pick(&["struct", "struct", "struct", "enum", "newtype", "struct-nullable", "string-nullable"]);
     let t = json!({"$ref": "#/definitions/Target"});
     let mut defs = Map::new();
     defs.insert("Target".into(), target_schema(kind));
@@ -89,7 +89,13 @@ pub fn gen_c14_case(g: &mut G) -> Value {
             s.replace.insert("Target".into(), Replace { ty: REPL.into(), impls });
             which.push("replace");
         } else if g.chance(1, 2) {
-            s.patch.insert("Target".into(), Patch { rename: Some("RenamedTarget".into()), derives: vec!["PartialEq".into()] });
+            // extra derives: a single one, or several whose names are related (Eq/PartialEq ...)
+            let derives: Vec<String> = if matches!(kind, "struct" | "enum" | "newtype") && g.chance(1, 2) {
+                vec!["PartialEq".into(), "Eq".into(), "Hash".into(), "PartialOrd".into(), "Ord".into()]
+            } else {
+                vec!["PartialEq".into()]
+            };
+            s.patch.insert("Target".into(), Patch { rename: Some("RenamedTarget".into()), derives });
             which.push("patch");
         }
         if g.chance(1, 2) {
@@ -103,7 +109,8 @@ pub fn gen_c14_case(g: &mut G) -> Value {
             s.convert.push(Convert { schema: cs, ty: CONV.into(), impls: vec!["Display".into(), "FromStr".into(), "Default".into()] });
             which.push("convert");
         }
-        if g.chance(1, 3) && !s.patch.contains_key("Target") {
+        // (next to a patch the settings-wide derive repeats one of the patch's: harmless)
+        if g.chance(if s.patch.is_empty() { 1 } else { 2 }, 3) {
             s.derives.push("PartialEq".into());
             which.push("derive");
         }
@@ -267,8 +274,10 @@ impl Property for C14 {
             }
             if !is_replace {
                 if let Some(it) = ix.items.get("RenamedTarget") {
-                    if !it.derives.iter().any(|d| d == "PartialEq") {
-                        v.push(Violation::new("patch-derive-missing", format!("RenamedTarget derives {:?}", it.derives)));
+                    let wanted = s.patch.get("Target").map(|p| p.derives.clone()).unwrap_or_default();
+                    let missing: Vec<&String> = wanted.iter().filter(|w| !it.derives.iter().any(|d| &d == w)).collect();
+                    if !missing.is_empty() {
+                        v.push(Violation::new("patch-derive-missing", format!("RenamedTarget lacks {:?}; it derives {:?}", missing, it.derives)));
                     }
                 }
             }
@@ -383,7 +392,7 @@ impl Property for C14 {
                 }
                 bare == conv_schema() && c.ty == CONV
             })
-            && case.settings.patch.values().all(|p| p.rename.as_deref() == Some("RenamedTarget") && p.derives == vec!["PartialEq".to_string()])
+            && case.settings.patch.values().all(|p| p.rename.as_deref() == Some("RenamedTarget") && (p.derives == vec!["PartialEq".to_string()] || (matches!(kind, "struct" | "enum" | "newtype") && p.derives == ["PartialEq", "Eq", "Hash", "PartialOrd", "Ord"].iter().map(|d| d.to_string()).collect::<Vec<_>>())))
             && case.settings.map_type.as_ref().map(|m| MAP_TYPES.contains(&m.as_str())).unwrap_or(true)
             && case.settings.derives.iter().all(|d| d == "PartialEq")
             && case.settings.type_mod.is_none()
